@@ -28,6 +28,9 @@ pub struct Expect {
     pub maybe_lost: Vec<Id>,
     /// the number of clone events is not pinned down (rejected lazy consumption)
     pub clones_lenient: bool,
+    /// (vector, n): after a documented leak the first n elements must be unchanged and everything
+    /// after them must come from the leaked set
+    pub prefix_keep: Vec<(usize, usize)>,
 }
 
 pub fn resolve_range(lo: &Bound<usize>, hi: &Bound<usize>, len: usize) -> Option<(usize, usize)> {
@@ -112,6 +115,7 @@ impl Model {
             let tail = self.vecs[v].split_off(at);
             ex.leaked.extend_from_slice(&tail);
             ex.resync.push(v);
+            ex.prefix_keep.push((v, at));
         }
     }
 
@@ -142,6 +146,33 @@ impl Model {
                 if let Some((a, b)) = cloned {
                     ex.out.lens.push(b - a);
                     ex.out.vals.extend(items[a..b].iter().map(|i| Val::Id(*i)));
+                }
+            }
+            Op::ViewWrite { v, at, via, id, w, j } => {
+                ex.nontrivial = true;
+                let len = self.vecs[*v].len();
+                if *at >= len {
+                    ex.out.panicked = true;
+                    return ex;
+                }
+                match via {
+                    ViewKind::ElemSwapElem => {
+                        let a = self.vecs[*v][*at];
+                        let b = self.vecs[*w][*j];
+                        self.vecs[*v][*at] = b;
+                        self.vecs[*w][*j] = a;
+                    }
+                    ViewKind::ElemSwapPopHandle => {
+                        let b = self.vecs[*w].pop().unwrap();
+                        self.vecs[*v][*at] = b;
+                    }
+                    ViewKind::ElemSwapRemoveHandle => {
+                        let b = self.vecs[*w].remove(*j);
+                        let a = self.vecs[*v][*at];
+                        self.vecs[*v][*at] = b;
+                        self.vecs[*w].push(a);
+                    }
+                    _ => self.vecs[*v][*at] = *id,
                 }
             }
             Op::CloneEmptyIn { v, .. } => {
@@ -423,6 +454,7 @@ impl Model {
             let tail: Vec<Id> = self.vecs[v].split_off(a);
             ex.leaked.extend_from_slice(&tail);
             ex.resync.push(v);
+            ex.prefix_keep.push((v, a));
         }
         (a, range[lo..hi].to_vec())
     }
